@@ -419,6 +419,34 @@ func (x *Exec) applyContract(st *State, call *ast.CallExpr, key string, c *FuncC
 			x.check(st, "pre", fmt.Sprintf("pre/%s#%d.%d", short, i+1, j+1), cj, call.Pos(), r.Src)
 		}
 	}
+	// read frames: what the callee may read of a slice argument must lie inside what this function may read
+	if len(x.readSpecs) > 0 {
+		for i := 0; i < sig.Params().Len() && i < len(args); i++ {
+			a, ok := args[i].(SliceV)
+			if !ok {
+				continue
+			}
+			pname := sig.Params().At(i).Name()
+			lo, hi := Int(0), a.Len
+			for _, rd := range c.Reads {
+				if rd.Param == pname {
+					lo = asTerm(x.evalSpec(envPre, rd.Lo))
+					hi = asTerm(x.evalSpec(envPre, rd.Hi))
+				}
+			}
+			k1, _ := heapKey(a.Elem)
+			for _, rs := range x.readSpecs {
+				if rs.key != k1 {
+					continue
+				}
+				env := x.specEnvPre(st)
+				rlo := asTerm(x.evalSpec(env, rs.lo))
+				rhi := asTerm(x.evalSpec(env, rs.hi))
+				g := Implies(Eq(a.Ref, rs.ref), Or(Cmp("<=", hi, lo), And(Cmp("<=", Add(rs.off, rlo), Add(a.Off, lo)), Cmp("<=", Add(a.Off, hi), Add(rs.off, rhi)))))
+				x.check(st, "reads", "frame/read", g, call.Pos(), "callee "+short+" reads "+pname+" only inside ["+rs.src+") of "+rs.param)
+			}
+		}
+	}
 	if c.Panics != nil && !c.PanicsOnly {
 		g := asTerm(x.evalSpec(envPre, c.Panics.E))
 		x.check(st, "pre", fmt.Sprintf("pre/%s#nopanic", short), Not(g), call.Pos(), "callee does not panic: !("+c.Panics.Src+")")
